@@ -21,8 +21,13 @@ pub enum ArenaState {
     BytesLeft(u8),
     /// fresh arena, and the client drops every Data chunk before asking for the next one
     FreshDropEach,
+    /// (StreamReader runs) the client consumes the whole returned record from the iovec it was
+    /// handed before asking for the next record (the documented usage pattern)
+    ReaderClientConsumesAll,
+    /// (StreamReader runs) the client consumes half of the returned record
+    ReaderClientConsumesHalf,
 }
-pub const ARENA_STATES: [ArenaState; 12] = [
+pub const ARENA_STATES: [ArenaState; 14] = [
     ArenaState::Fresh,
     ArenaState::OneByteLeft,
     ArenaState::SharedWithLiveIovec,
@@ -35,6 +40,8 @@ pub const ARENA_STATES: [ArenaState; 12] = [
     ArenaState::BytesLeft(8),
     ArenaState::BytesLeft(9),
     ArenaState::FreshDropEach,
+    ArenaState::ReaderClientConsumesAll,
+    ArenaState::ReaderClientConsumesHalf,
 ];
 
 pub fn block_name(b: Option<usize>) -> String {
@@ -72,7 +79,7 @@ fn chunker_run_inner(stream: &[u8], block: usize, sched: &Sched, arena_state: Ar
     let live0 = live();
     let mut iov: OwningIovec<'static> = OwningIovec::new();
     match arena_state {
-        ArenaState::Fresh | ArenaState::FreshDropEach => {}
+        ArenaState::Fresh | ArenaState::FreshDropEach | ArenaState::ReaderClientConsumesAll | ArenaState::ReaderClientConsumesHalf => {}
         ArenaState::OneByteLeft | ArenaState::BytesLeft(_) => {
             let leave = match arena_state {
                 ArenaState::BytesLeft(k) => k as usize,
@@ -281,8 +288,8 @@ fn last_sentinel_start(stream: &[u8]) -> u64 {
 }
 
 /// C06: reads every record with the real StreamReader and compares with the reference list.
-pub fn reader_run(stream: &[u8], block: Option<usize>, sched: &Sched, judge: Judge) -> Result<usize, String> {
-    let r = catch(|| reader_run_inner(stream, block, sched, judge));
+pub fn reader_run(stream: &[u8], block: Option<usize>, sched: &Sched, judge: Judge, client: ArenaState) -> Result<usize, String> {
+    let r = catch(|| reader_run_inner(stream, block, sched, judge, client));
     owning_iovec::verif::drain_quarantine();
     match r {
         Ok(r) => r,
@@ -290,7 +297,7 @@ pub fn reader_run(stream: &[u8], block: Option<usize>, sched: &Sched, judge: Jud
     }
 }
 
-fn reader_run_inner(stream: &[u8], block: Option<usize>, sched: &Sched, judge: Judge) -> Result<usize, String> {
+fn reader_run_inner(stream: &[u8], block: Option<usize>, sched: &Sched, judge: Judge, client: ArenaState) -> Result<usize, String> {
     let live0 = live();
     let want = reference_records(stream, judge);
     let mut sr = StreamReader::new();
@@ -349,6 +356,16 @@ fn reader_run_inner(stream: &[u8], block: Option<usize>, sched: &Sched, judge: J
                     }
                 }
                 let bytes = iov.flatten().map_err(|_| "record iovec has a pending placeholder".to_string())?;
+                match client {
+                    ArenaState::ReaderClientConsumesAll | ArenaState::ReaderClientConsumesHalf => {
+                        let n = if client == ArenaState::ReaderClientConsumesAll { usize::MAX } else { bytes.len() / 2 };
+                        let took = iov.consumer().advance_slices(n);
+                        if took != n.min(bytes.len()) {
+                            return Err(format!("[content] the client consumed {} of the {} record bytes it asked to consume", took, n.min(bytes.len())));
+                        }
+                    }
+                    _ => {}
+                }
                 got.push((bytes, range));
             }
         }
